@@ -214,6 +214,31 @@ def overheard_sweep() -> list[dict]:
     return out
 
 
+def refetch_sweep() -> list[dict]:
+    """'Another gateway re-fetches': a zone's schedule has been fetched; it is edited on the controller (once or twice, also
+    across a change in the number of fragments); then the controller is overheard answering another device - its RP|0006
+    (the counter as it is now; or not) followed by a PREFIX (none, the first, .., all) of the RP|0404 fragments of the zone's
+    current schedule; then this gateway fetches the zone again, forced or not (the model's HeardVer / HeardFrag, combined;
+    ordinary zones: every fragment of every version differs, so a stale result is not the first-fragment defect)."""
+    out = []
+    for z, other in ((1, 2), (2, 1)):
+        for init in (0, 1):                  # the version first fetched
+            for edits in (1, 2):
+                cur = init + edits
+                nfr = 2 if cur < 2 else 3
+                for h6 in (1, 0):
+                    for p in range(0, nfr + 1):
+                        if not h6 and p == 0:
+                            continue
+                        for force in (1, 0):
+                            h = [["bump", z, 0, 0, 0, 0, -1]] * init + [["start", 1, z, 0, 0, 0, -1]] + \
+                                [["bump", z, 0, 0, 0, 1, -1]] * edits + ([["heard6", 0, 0, 0, 0, 1, -1]] if h6 else []) + \
+                                [["heard", z, cur, k, 0, 1, -1] for k in range(1, p + 1)] + \
+                                [["start", 2, z, 0, force, 1, -1], ["fu", z, 0, 0, 0, 0, -1], ["fu", other, 0, 0, 0, 0, -1]]
+                            out.append({"zones": [1, 2], "h": [list(e) for e in h]})
+    return out
+
+
 def concurrent_sweep() -> list[dict]:
     """Two zones that already hold a schedule re-read at the same moment (forced, or after the cached counter has
     aged), one of them with a fault at each of its first exchanges: version reads happen *before* the lock is
@@ -593,6 +618,7 @@ def main(tier: str, replay: str | None) -> None:
     scen += [("retry-sweep", s) for s in retry_sweep()]
     scen += [("onefrag-sweep", s) for s in onefrag_sweep()]
     scen += [("overheard-sweep", s) for s in overheard_sweep()]
+    scen += [("refetch-sweep", s) for s in refetch_sweep()]
     n_aged = spread_ages(scen)  # every ageing so far gets an elapsed time out of AGES
     scen += [("age-sweep", s) for s in age_sweep()]
     scen += [("edit-sweep", s) for s in edit_sweep(fam_keep, fam_ctl)]
